@@ -655,7 +655,7 @@ def selfcheck():
 
 
 SUBCHECKS = [
-    SubCheck('lexical', lambda: G.DATASPEC, run_lexical, quick=5000, thorough=200000),
+    SubCheck('lexical', lambda: G.DATASPEC, run_lexical, quick=5000, thorough=156000),
     SubCheck('model', lambda: G.DATASPEC, run_model, quick=600, thorough=8000),
     SubCheck('roundtrip', lambda: G.FRAMESPEC, run_roundtrip, quick=400, thorough=5000),
 ]
